@@ -28,12 +28,12 @@ package vm
 
 //@ func (StateDB).SubBalance props C17
 //@ trusted
-//@ requires arg1 != nil
+//@ requires [nonnil] arg1 != nil
 //@ modifies c17Bal
 //@ ensures c17Bal == store(old(c17Bal), arg0, old(c17Bal[arg0]) - big(arg1))
 //@ func (StateDB).AddBalance props C17
 //@ trusted
-//@ requires arg1 != nil
+//@ requires [nonnil] arg1 != nil
 //@ modifies c17Bal
 //@ ensures c17Bal == store(old(c17Bal), arg0, old(c17Bal[arg0]) + big(arg1))
 
